@@ -14,6 +14,7 @@ def gen_shape(rng: random.Random) -> dict:
     """Nest / map shapes built from function nodes only: wide steps, nested graphs (depth 0-3), mapping nodes."""
     names = gen.Names()
     program: list[dict] = []
+    with_int: set[int] = set()      # graphs that contain (at any depth) an interrupt node: these are never mapped over
 
     def level(depth: int) -> int:
         nodes = []
@@ -22,11 +23,20 @@ def gen_shape(rng: random.Random) -> dict:
             nn = names.fresh("n")
             nodes.append({"name": nn, "kind": "fn", "params": [["x", None]], "dataOuts": [names.fresh("v")], "body": {"b": "tag", "t": nn},
                           "syncBody": rng.random() < 0.25})      # plain `def` functions next to `async def` ones: both count
+        has_int = False
+        if rng.random() < 0.25:
+            # an interrupt whose (async) handler answers: a node function like any other, it takes a permit too
+            nn = names.fresh("ask")
+            nodes.append({"name": nn, "kind": "interrupt", "params": [["x", None]], "dataOuts": [names.fresh("a")], "body": {"b": "handler", "k": 1},
+                          "asyncHandler": True})
+            has_int = True
         if depth > 0:
             for _ in range(rng.randint(1, 2)):
                 inner = level(depth - 1)
                 gn: dict[str, Any] = {"name": names.fresh("w"), "kind": "graph", "inner": inner}
-                if rng.random() < 0.4:
+                if inner in with_int:
+                    has_int = True
+                elif rng.random() < 0.4:
                     gn["mapOver"] = ["x"]
                     gn["mapMode"] = "zip"
                 nodes.append(gn)
@@ -37,11 +47,13 @@ def gen_shape(rng: random.Random) -> dict:
                 nn = names.fresh("n")
                 nodes.append({"name": nn, "kind": "fn", "params": [[src, None]], "dataOuts": [names.fresh("v")], "body": {"b": "tag", "t": nn}})
         program.append({"name": f"g{len(program)}", "nodes": nodes, "bound": []})
+        if has_int:
+            with_int.add(len(program) - 1)
         return len(program) - 1
 
     depth = rng.choice([0, 1, 1, 2, 3])
-    level(depth)
-    return {"program": program, "depth": depth}
+    root = level(depth)
+    return {"program": program, "depth": depth, "interrupts": root in with_int}
 
 
 def needs_list(program: list[dict], gi: int) -> bool:
@@ -58,14 +70,14 @@ class C15(Prop):
         "open more than k bodies (unlimited peak > k); distinct by canonical hash"
     )
     budgets = {"quick": 120, "thorough": 2500}
-    assumptions = ["asyncio.Semaphore fairness and wake-up order are assumed; only function-node bodies take a permit (finding C15-F1: interrupt handlers do not)"]
+    assumptions = ["asyncio.Semaphore fairness and wake-up order are assumed; function-node bodies and interrupt handlers take a permit (the latter since the repair recorded as C15-X1)"]
 
     def cases(self, rng: random.Random, tier: str) -> Iterable[dict]:
         while True:
             s = gen_shape(rng)
             program = s["program"]
             # inputs: mapping nodes along the path receive lists: give every graph input `x` a list when the ROOT maps, else scalar
-            top_map = rng.random() < 0.3
+            top_map = rng.random() < 0.3 and not s["interrupts"]
             yield {"program": program, "depth": s["depth"], "top_map": top_map, "items": rng.randint(1, 4), "k": rng.randint(1, 4),
                    "policy": rng.choice(["lifo", "fifo", "random"]), "seed": rng.randint(0, 10**6),
                    # an earlier run in the same task, with a LARGER limit, that ended abnormally (its limiter must not outlive it)
